@@ -6,7 +6,9 @@
 //!
 //! case : <kind F|S|J|D|U|P|T|E> <mode s|c> <api q|e|E> <cons full|slowMS|jit|dropN|st<state>> <nodes> <policy x|xd|di|dn|f> <script>
 //!   kinds: F full read, S slow consumer, J every Pending poll cancelled, D early drop, U UNPREPARED on a later
-//!          page, P single page with caller state, T client timeout (4 s), E forced early timeout (400 ms vs 2 s)
+//!          page, P single page with caller state, T client timeout (4 s), E forced early timeout (400 ms vs 2 s),
+//!          X full read right after ANOTHER pager on the same (only) connection abandoned a page request whose
+//!          response the mock releases 3 s later, while this pager's first page (delayed 1.5 s) is in flight
 //!   mode s : Session::query_iter (api q) / Session::execute_iter (api e; E = with cached result metadata)
 //!   mode c : Connection::execute_iter on a bare connection (hook scylla::client::verif_pager), policy f
 //!   script : pages joined by ';' ; page = <faults>/<resp>
@@ -52,6 +54,8 @@ const TIMEOUT_MS: u64 = 4000;
 /// kind E: a short client timeout with one reply scripted to take far longer (2 s), so that the
 /// timeout strikes that earlier attempt on purpose (exercises the early-timeout acceptance)
 const SHORT_TIMEOUT_MS: u64 = 400;
+/// kind X: how long the mock holds the response to the page request pager A gave up on
+const STALE_DELAY_MS: u64 = 3000;
 static REPLAY: std::sync::atomic::AtomicBool = std::sync::atomic::AtomicBool::new(false);
 /// observation of a case that could not run: `error ..` in a generated run (counted and capped by
 /// checks/c07.py), `replay-error ..` in a replay (a replay must never pass by not running)
@@ -206,6 +210,10 @@ impl Case {
 
     fn has_timeout(&self) -> bool {
         self.script.iter().any(|(fs, _)| fs.contains(&Fault::Timeout))
+    }
+    /// cases that wait on wall-clock time get an environment of their own and run side by side
+    fn own_env(&self) -> bool {
+        self.has_timeout() || self.kind == 'X'
     }
     fn has_break(&self) -> bool {
         self.mode == 's' && self.script.iter().any(|(fs, _)| fs.iter().any(|f| matches!(f, Fault::Err(c, _) if *c == E_BROKEN)))
@@ -451,6 +459,49 @@ async fn run_case(env: &mut Env, c: &Case) -> String {
     let retry: Arc<dyn RetryPolicy> = if c.policy.starts_with('x') { Arc::new(ScriptedPolicy { broken_next: c.policy != "xd" }) } else { Arc::new(DefaultRetryPolicy::new()) };
     let idem = c.policy != "dn";
 
+    // kind X: before the pager of the case (B) runs, ANOTHER pager (A) on the same, only
+    // connection times out on its second page while the mock holds that response for 3 s; B is
+    // started 2.2 s after A gave up and its first page (delayed 1.5 s by its script) is in flight
+    // when A's stale response arrives.  B must deliver exactly its own pages.
+    let mut stale_text: Option<String> = None;
+    if c.kind == 'X' {
+        let text_a = format!("SELECT v FROM ks.t WHERE pk = {} AND other = 1", uniq);
+        let a_rows = |base: u32, n: u32| -> Vec<Vec<Cell>> { (0..n).map(|i| vec![cell::int((base + i) as i32)]).collect() };
+        env.cluster.script(
+            NodeSel::Any,
+            text_a.as_str(),
+            vec![
+                Action::Rows(RowsSpec::new(env.cols.clone(), a_rows(0xa000, 3)).with_paging_state(b"pg-A-1".to_vec()).with_meta(MetaMode::Auto)),
+                Action::Delay(STALE_DELAY_MS),
+                Action::Rows(RowsSpec::new(env.cols.clone(), a_rows(0xa100, 3)).with_paging_state(b"pg-A-2".to_vec()).with_meta(MetaMode::Auto)),
+            ],
+        );
+        let mut st = Statement::new(text_a.clone());
+        st.set_page_size(3);
+        st.set_retry_policy(Some(Arc::new(ScriptedPolicy { broken_next: true })));
+        st.set_request_timeout(Some(Duration::from_millis(300)));
+        let mut a_items = Vec::new();
+        match env.session.query_iter(st, ()).await {
+            Ok(p) => {
+                if let Ok(mut stream) = p.rows_stream::<Row>() {
+                    while let Some(x) = stream.next().await {
+                        match x {
+                            Ok(_) => a_items.push('r'),
+                            Err(NextRowError::NextPageError(e)) if next_page_error_code(&e) == E_TIMEOUT => a_items.push('t'),
+                            Err(_) => a_items.push('e'),
+                        }
+                    }
+                }
+            }
+            Err(_) => a_items.push('f'),
+        }
+        if a_items != ['r', 'r', 'r', 't'] {
+            return not_run(format!("stale-schedule:pager-A-saw-{}", a_items.iter().collect::<String>()));
+        }
+        tokio::time::sleep(Duration::from_millis(2200)).await;
+        stale_text = Some(text_a);
+    }
+
     if let Cons::Single(st) = &c.cons {
         use scylla::errors::ExecutionError;
         use scylla::response::PagingState;
@@ -606,6 +657,48 @@ async fn run_case(env: &mut Env, c: &Case) -> String {
     }
     let trace = env.cluster.drain_trace();
     let keys = keys_from_trace(&trace, &text, &id);
+    if let Some(text_a) = &stale_text {
+        // the schedule only counts when A's stale response was written while B's first request
+        // was in flight (received by the mock before, answered after)
+        let mut a_second: Option<(u64, i16)> = None;
+        let mut t_a_second = 0u64;
+        let mut a_seen = 0;
+        let mut t_stale: Option<u64> = None;
+        let mut b_first_in: Option<u64> = None;
+        let mut b_first: Option<(u64, i16)> = None;
+        for e in &trace {
+            match &e.ev {
+                Ev::In { opcode, body, stream, .. } if *opcode == op::QUERY || *opcode == op::EXECUTE => {
+                    let is_a = *opcode == op::QUERY && wire::decode_query(body).is_ok_and(|q| &q.text == text_a);
+                    let is_b = (*opcode == op::QUERY && wire::decode_query(body).is_ok_and(|q| q.text == text))
+                        || (*opcode == op::EXECUTE && wire::decode_execute(body, false).is_ok_and(|x| x.id == id));
+                    if is_a {
+                        a_seen += 1;
+                        if a_seen == 2 {
+                            a_second = Some((e.conn_id, *stream));
+                            t_a_second = e.t_ns;
+                        }
+                    } else if is_b && b_first.is_none() {
+                        b_first = Some((e.conn_id, *stream));
+                        b_first_in = Some(e.t_ns);
+                    }
+                }
+                // the held response is recognised by its content (A's second page carries the
+                // paging state "pg-A-2"); the stream id may have been reused in between
+                Ev::Out { stream, body, .. }
+                    if t_stale.is_none() && Some((e.conn_id, *stream)) == a_second && body.windows(6).any(|w| w == b"pg-A-2") =>
+                {
+                    t_stale = Some(e.t_ns);
+                }
+                _ => {}
+            }
+        }
+        let same_conn = matches!((a_second, b_first), (Some((ca, _)), Some((cb, _))) if ca == cb);
+        let overlapped = matches!((b_first_in, t_stale), (Some(tb), Some(ts)) if tb < ts);
+        if !(same_conn && overlapped) {
+            return not_run(format!("stale-schedule:same_conn={},overlapped={},a2={:?}@{},b1={:?}@{:?},stale@{:?}", same_conn, overlapped, a_second, t_a_second / 1_000_000, b_first, b_first_in.map(|t| t / 1_000_000), t_stale.map(|t| t / 1_000_000)));
+        }
+    }
     if c.has_break() {
         wait_pools(&env.cluster, env.nodes).await;
     }
@@ -952,6 +1045,28 @@ fn forced_early_timeout_cases(r: &mut Rng, n: usize) -> Vec<Case> {
         .collect()
 }
 
+/// kind X (seeded change C07-3): the pager of the case runs on the only connection of a one-node
+/// session right after another pager gave up on a page whose response the mock still holds; its
+/// first page is delayed (1.5 s) so that it is in flight when the stale response is released.
+/// A response that belongs to an abandoned request must never reach this pager.
+fn stale_response_cases(r: &mut Rng, n: usize) -> Vec<Case> {
+    (0..n)
+        .map(|i| {
+            let npages = r.range(2, 5) as usize;
+            let mut next = 0xc000u32 + (i as u32) * 64;
+            let script = (0..npages)
+                .map(|p| {
+                    let rows: Vec<u32> = (0..r.range(1, 3)).map(|_| { next += 1; next }).collect();
+                    let st = if p + 1 == npages { None } else { Some(gen_state(r)) };
+                    let fs = if p == 0 { vec![Fault::Delay(1500)] } else { vec![] };
+                    (fs, Resp::Rows(rows, st))
+                })
+                .collect();
+            Case { kind: 'X', mode: 's', api: *r.pick(&['q', 'e', 'E']), cons: if i % 2 == 0 { Cons::Full } else { Cons::Jitter }, nodes: 1, policy: "x".into(), script }
+        })
+        .collect()
+}
+
 /// slow consumer x error on a later page: the worker is ahead (page 1 sits in the channel while
 /// the caller still reads page 0) when the request of page k >= 2 fails; the error must still
 /// reach the caller after every row of the earlier pages
@@ -1112,6 +1227,7 @@ fn main() {
         cases.extend(slow_error_cases(&mut r, if thorough { 80 } else { 16 }));
         cases.extend(unprepared_cases(&mut r, if thorough { 80 } else { 16 }));
         cases.extend(single_cases(&mut r, if thorough { 200 } else { 30 }));
+        cases.extend(stale_response_cases(&mut r, if thorough { 8 } else { 5 }));
         cases.extend(timeout_cases(&mut r, if thorough { 16 } else { 8 }));
         cases.extend(forced_early_timeout_cases(&mut r, if thorough { 18 } else { 9 }));
     }
@@ -1123,9 +1239,9 @@ fn main() {
         let mut groups: Vec<(usize, bool, Vec<(usize, Case)>)> = Vec::new();
         for (i, c) in cases.into_iter().enumerate() {
             let brk = c.has_break();
-            if c.has_timeout() {
+            if c.own_env() {
                 groups.push((c.nodes, true, vec![(i, c)]));
-            } else if let Some(g) = groups.iter_mut().find(|g| g.0 == c.nodes && g.1 == brk && g.2.first().is_some_and(|x| !x.1.has_timeout())) {
+            } else if let Some(g) = groups.iter_mut().find(|g| g.0 == c.nodes && g.1 == brk && g.2.first().is_some_and(|x| !x.1.own_env())) {
                 g.2.push((i, c));
             } else {
                 groups.push((c.nodes, brk, vec![(i, c)]));
